@@ -79,6 +79,14 @@ CHECKS = {
             "Dozens (thorough: hundreds) of correlation workloads with 1..32 askers x 1..200 asks over AskOnce / AskOnceWithTimeout / AskChannel and three reply disciplines, plus the four timeout classes (in time, never, after the timeout has been reported, racing it with the asker parked between timer and close) x payload kinds, each followed by a liveness probe of the actor; late replies run under recover with a blocked-detector; repeated under -race.",
             "Trusted: the 60 s 'generous' timeouts are only used in the safe direction; schedules sampled + one park point.",
             "DESIGN.md section 5, C13"),
+    "C09": ("exploration", "jobs as monitors (per-job atomic start counters, concurrency gauge, unique panic values) + stuck detector on job-start/worker-lifecycle progress + hook-directed worker/spawn-loop interleavings",
+            "40 (thorough: all 104) pool configurations x 6 submission patterns x 2 fault placements x seeds, plus directed runs that park a dying worker, two expiring workers, the spawn loop and Schedule at hook points: every accepted job starts exactly once (or the stuck detector produces a witness), rejected jobs never run, at most workerSizeMaximum jobs at any start, each job panic reported exactly once and nothing else reaches the handler, exact Full / ScheduleTimeout / Closed errors with the only worker held busy.",
+            "Trusted: atomic counters inside the jobs; the stuck detector's conditions (no job start and no worker spawn/exit for 3 s, no library goroutine able to progress); race reports on worker/pool.go are advisory only.",
+            "DESIGN.md section 5, C09"),
+    "C15": ("fault_enumeration", "directed schedule enumeration with hook-parked goroutines (close placed between an operation's closed-check and its channel send), one child process per scenario, crash attribution, stuck detector, PRNG stress, Go race detector",
+            "About 100 directed scenarios covering every (component, operation, park point, close variant) of Handler, Actor, BufferedChannelQueue (callers, loader, node-pool goroutine), coroutines and WorkerPool, each followed by post-close probes, plus 100 (thorough 2000) PRNG stress runs and a -race pass: no panic in calling goroutines (recover) or library goroutines (child death attributed by the parent), silent pool panic handler, nobody stuck, operations racing the close never return invented values, operations after the close report it.",
+            "Trusted: hook points mark the windows (windows without a hook are only reached by stress); Handler/Actor isClosed race reports are not deciding.",
+            "DESIGN.md section 5, C15"),
 }
 
 NOT_YET = "check not built yet in this session (runtime monitoring applies; see DESIGN.md section 5)"
